@@ -87,6 +87,16 @@ func genMutants(outdir string) error {
 				}
 			case *ast.IfStmt:
 				add(x.Cond.Pos(), x.Cond.End(), "!("+text(x.Cond)+")", "negate-if")
+				// a guard: `if cond { …; return/continue/break }` without else and without an init statement
+				if x.Else == nil && x.Init == nil && len(x.Body.List) > 0 {
+					switch last := x.Body.List[len(x.Body.List)-1].(type) {
+					case *ast.ReturnStmt:
+						add(x.Pos(), x.End(), "", "delete-guard")
+					case *ast.BranchStmt:
+						_ = last
+						add(x.Pos(), x.End(), "", "delete-guard")
+					}
+				}
 			case *ast.ForStmt:
 				if x.Cond != nil {
 					add(x.Cond.Pos(), x.Cond.End(), "!("+text(x.Cond)+")", "negate-for")
@@ -95,6 +105,11 @@ func genMutants(outdir string) error {
 				flip := map[token.Token]string{token.EQL: "!=", token.NEQ: "==", token.LSS: "<=", token.LEQ: "<", token.GTR: ">=", token.GEQ: ">"}
 				if r, ok := flip[x.Op]; ok {
 					add(x.OpPos, x.OpPos+token.Pos(len(x.Op.String())), r, "flip-"+x.Op.String())
+				}
+				if r, ok := map[token.Token]string{token.LSS: ">", token.GTR: "<", token.ADD: "-", token.SUB: "+"}[x.Op]; ok {
+					if _, isStr := x.X.(*ast.BasicLit); !isStr || x.Op != token.ADD {
+						add(x.OpPos, x.OpPos+token.Pos(len(x.Op.String())), r, "reverse-"+x.Op.String())
+					}
 				}
 				if x.Op == token.LAND || x.Op == token.LOR {
 					add(x.Pos(), x.End(), text(x.X), "drop-right-operand")
@@ -117,6 +132,18 @@ func genMutants(outdir string) error {
 					add(x.Sel.Pos(), x.Sel.End(), "RLock", "lock-to-rlock")
 				case "Unlock":
 					add(x.Sel.Pos(), x.Sel.End(), "RUnlock", "unlock-to-runlock")
+				}
+				if to, ok := map[string]string{"Front": "Back", "Back": "Front", "PushFront": "PushBack", "PushBack": "PushFront", "MoveToFront": "MoveToBack",
+					"After": "Before", "Before": "After", "Truncate": "Round", "Next": "Prev"}[x.Sel.Name]; ok {
+					add(x.Sel.Pos(), x.Sel.End(), to, "method-"+x.Sel.Name+"-to-"+to)
+				}
+			case *ast.CallExpr:
+				if len(x.Args) == 2 && !isLogCall(x) {
+					add(x.Args[0].Pos(), x.Args[1].End(), text(x.Args[1])+", "+text(x.Args[0]), "swap-args")
+				}
+			case *ast.BranchStmt:
+				if x.Tok == token.CONTINUE && x.Label == nil {
+					add(x.Pos(), x.End(), "break", "continue-to-break")
 				}
 			case *ast.AssignStmt:
 				// plain assignments to fields / elements / dereferences (state updates), not definitions
